@@ -271,7 +271,7 @@ def shard(ctx, n, sub):
 
 
 def main(ctx):
-    n = ctx.pick(800, 40000)
+    n = ctx.pick(800, 250000)
     ctx.shards("shard", [{"n": n, "sub": s} for s in range(16)])
     ctx.require("mapped", 3000)
     for f in ["DPlain", "DNonInit", "DFrozen", "DGeneric", "set", "dict", "nt", "tnt"]:
